@@ -194,6 +194,11 @@ class _View:
         self.shape = data.shape
 
 
+def snap(t):
+    """what 'the data of a tensor' is for the frame conditions: shape, dtype and bytes"""
+    return (tuple(t.data.shape), str(t.data.dtype), t.data.tobytes())
+
+
 def has_layout(shape):
     """a column-major copy differs from the row-major one only with at least two dims larger than 1"""
     return sum(1 for n in shape if n > 1) >= 2
@@ -250,6 +255,37 @@ class CatalogReplayer:
             self.bases[k] = base
             T.append(t)
         return T
+
+    INT_CLOSED = {"add", "sub", "mul", "neg", "clone", "matmul", "addmm", "sum", "max", "min", "squeeze", "unsqueeze", "reshape", "flatten",
+                  "movedim", "transpose", "unfold", "concat", "stack", "unbind", "getitem"}
+
+    def int_pass(self, case):
+        """C05 on integer-typed tensors: operations under which the integers are closed are run on int64 copies of the
+        operands (when every operand value and every specified result value is an integer); shape and values must
+        be the same ones, exactly.  The result dtype is not constrained (no listed property fixes it)."""
+        div = []
+        op = case["op"]
+        if op not in self.INT_CLOSED or case["pol"] != "MUST" or case["kind"] not in ("poly", "ext") or case.get("intops"):
+            return div
+        if isinstance(case.get("a"), dict) and case["a"].get("alias"):
+            return div
+        if any(q[1] != 1 for vals in case["X"] for q in vals) or any(q[1] != 1 for q in case["out"]):
+            return div
+        sg = self.sg
+        T = [sg.Tensor(qarr(vals, shape, np.float64).astype(np.int64)) for shape, vals in zip(case["shapes"], case["X"])]
+        ac = argclass(case)
+        try:
+            with repo.quiet(), np.errstate(all="ignore"):
+                out = self.caller(sg, op, case["a"], T, 0)
+        except Exception as e:  # noqa: BLE001
+            div.append(("accept", "%s:accept-int64:%s" % (op, ac), "%s%s on int64 tensors of shapes %s raised %s: %s" % (op, case["a"], case["shapes"], type(e).__name__, str(e)[:100])))
+            return div
+        want = self.expected_out(case, np.dtype(np.float64))
+        if not isinstance(out, sg.Tensor) or tuple(out.shape) != tuple(case["oshape"]):
+            div.append(("forward_shape", "%s:shape-int64:%s" % (op, ac), "%s%s on int64 %s: shape %s, specification %s" % (op, case["a"], case["shapes"], getattr(out, "shape", None), tuple(case["oshape"]))))
+        elif not np.array_equal(out.data.astype(np.float64), want):
+            div.append(("forward_value", "%s:value-int64:%s" % (op, ac), "%s%s on int64 %s: %s, specification %s" % (op, case["a"], case["shapes"], out.data.tolist(), want.tolist())))
+        return div
 
     flagtable = None       # {(grad mode, (operand requires_grad...)): result requires grad} from Tape.tla (C07)
     only_flags = False
@@ -321,6 +357,7 @@ class CatalogReplayer:
         if self.only_flags:
             return self.flags_pass(case)
         div = self.run_layout(case, dtypes, cross_g)
+        div += self.int_pass(case)
         if self.flagtable is not None:
             div += self.flags_pass(case)
         if any(has_layout(s) for s in case["shapes"]) or has_layout(case.get("oshape") or ()):
@@ -348,13 +385,17 @@ class CatalogReplayer:
             dn = "f32" if dtype == np.float32 else "f64"
             for variant in self.variants:
                 T = self.operands(case, dtype, [False] * K)
-                snaps = [t.data.tobytes() for t in T]
+                snaps = [snap(t) for t in T]
                 try:
                     with repo.quiet(), np.errstate(all="ignore"):
                         out = self.caller(self.sg, op, case["a"], T, variant)
                     raised = None
                 except Exception as e:  # noqa: BLE001 - any exception is a rejection
                     raised = type(e).__name__ + ": " + str(e)[:100]
+                # operands are left alone whether the call is accepted, merely allowed, or rejected
+                if [snap(t) for t in T] != snaps:
+                    div.append(("operand_mutated", "%s:fwd-mutates:%s" % (op, ac), "forward of %s%s on %s modified an operand (shape / dtype / bytes): %s -> %s" % (
+                        op, case["a"], case["shapes"], [x[:2] for x in snaps], [snap(t)[:2] for t in T])))
                 if pol == "UNDEF":
                     if raised is None:
                         div.append(("reject", "%s:reject:%s" % (op, ac), "%s%s on shapes %s returned shape %s instead of raising" % (op, case["a"], case["shapes"], getattr(out, "shape", None))))
@@ -363,10 +404,8 @@ class CatalogReplayer:
                     if pol == "MUST":
                         div.append(("accept", "%s:accept:%s" % (op, ac), "%s%s on shapes %s raised %s" % (op, case["a"], case["shapes"], raised)))
                     continue
-                if [t.data.tobytes() for t in T] != snaps:
-                    div.append(("operand_mutated", "%s:fwd-mutates:%s" % (op, ac), "forward of %s modified an operand" % op))
                 for nm, t_, b_ in getattr(self, "aux", ()):
-                    if t_.data.tobytes() != b_:
+                    if snap(t_) != b_:
                         div.append(("operand_mutated", "%s:fwd-mutates-%s:%s" % (op, nm, ac), "forward of %s modified %s" % (op, nm)))
                 if not isinstance(out, self.sg.Tensor):
                     div.append(("forward_shape", "%s:type" % op, "result is %s, not a Tensor" % type(out)))
@@ -451,8 +490,8 @@ class CatalogReplayer:
                         return
                     g = sg.Tensor(self.lay(qarr(ent["g"], case["oshape"], gdt)))
                     aux = list(getattr(self, "aux", ()))
-                    snaps = [t.data.tobytes() for t in T]
-                    gsnap = g.data.tobytes()
+                    snaps = [snap(t) for t in T]
+                    gsnap = snap(g)
                     if not out.requires_grad:
                         div.append(("flags", "%s:result-not-rg" % op, "result of %s does not require grad although an operand does" % op))
                         return
@@ -462,12 +501,12 @@ class CatalogReplayer:
                     except Exception as e:  # noqa: BLE001
                         div.append(("backward_error", "%s:bwd-raises:%s" % (op, ac), "backward of %s%s on %s raised %s: %s" % (op, case["a"], case["shapes"], type(e).__name__, str(e)[:100])))
                         return
-                    if [t.data.tobytes() for t in T] != snaps:
+                    if [snap(t) for t in T] != snaps:
                         div.append(("operand_mutated", "%s:bwd-mutates:%s" % (op, ac), "backward of %s modified an operand" % op))
                     for nm, t_, b_ in aux:
-                        if t_.data.tobytes() != b_:
+                        if snap(t_) != b_:
                             div.append(("operand_mutated", "%s:bwd-mutates-%s:%s" % (op, nm, ac), "backward of %s modified %s" % (op, nm)))
-                    if g.data.tobytes() != gsnap:
+                    if snap(g) != gsnap:
                         div.append(("g_mutated", "%s:g-mutated" % op, "backward of %s modified the caller's gradient" % op))
                     want = self.expected_grads(case, ent["g"])
                     alias = isinstance(case.get("a"), dict) and case["a"].get("alias")
@@ -530,6 +569,28 @@ class CatalogReplayer:
                             if g2.data.shape != first[k].shape or not np.allclose(g2.data.astype(np.float64), 2 * first[k], rtol=4 * rt, atol=4 * rt * scale):
                                 div.append(("grad_value", "%s:second-backward:%s" % (op, ac), "%s%s on %s (%s): after a second backward(g) operand %d holds %s, twice the first result is %s" % (
                                     op, case["a"], case["shapes"], dn, k, g2.data.tolist(), (2 * first[k]).tolist())))
+                        # the vector-Jacobian product is linear in g: tiny and large upstream gradients scale the result
+                        # exactly (powers of two), nothing is dropped as "negligible" or clipped
+                        for c in (2.0 ** -40, 2.0 ** 20):
+                            T3 = self.operands(case, dtype, rg)
+                            try:
+                                with repo.quiet(), np.errstate(all="ignore"):
+                                    out3 = self.caller(sg, op, case["a"], T3, 0)
+                                    out3.backward(sg.Tensor(qarr(ent["g"], case["oshape"], gdt) * np.asarray(c, dtype=gdt)))
+                            except Exception as e:  # noqa: BLE001
+                                div.append(("backward_error", "%s:scaled-bwd-raises:%s" % (op, ac), "backward of %s with the upstream gradient scaled by %g raised %s" % (op, c, type(e).__name__)))
+                                break
+                            for k in (range(1) if alias else range(K)):
+                                if not rg[k] or first[k] is None:
+                                    continue
+                                g3 = self.grad_of(k, T3[k])
+                                if g3 is None:
+                                    continue
+                                rt = RTOL[dtype]
+                                scale = max(1.0, float(np.max(np.abs(first[k]))) if first[k].size else 1.0)
+                                if g3.data.shape != first[k].shape or not np.allclose(g3.data.astype(np.float64), c * first[k], rtol=4 * rt, atol=4 * rt * scale * c):
+                                    div.append(("grad_value", "%s:scaled-g:%s" % (op, ac), "%s%s on %s (%s): upstream gradient scaled by %g gives operand %d .grad %s, %g times the unscaled result is %s" % (
+                                        op, case["a"], case["shapes"], dn, c, k, g3.data.tolist(), c, (c * first[k]).tolist())))
 
     @staticmethod
     def check_subgradient(case, gq, grad):
